@@ -317,6 +317,7 @@ func instrumentFile(label string, p *packages.Package, f *ast.File, fc *fileCtx)
 	}
 	accDone := map[accKey]bool{}
 	syncDone := map[ast.Stmt]bool{}
+	syncHost := map[ast.Stmt]bool{}
 
 	var funcName string
 	var stack []ast.Node
@@ -470,12 +471,19 @@ func instrumentFile(label string, p *packages.Package, f *ast.File, fc *fileCtx)
 			if kind == 1 {
 				note = "write"
 			}
+			hk := kind
+			if hostHasSyncMark(info, host, syncHost) {
+				// the statement performs an atomic / sync.Map / sync.Pool operation: the access is
+				// recorded as a synchronised one (acquire before, release after)
+				hk |= 2
+				note += " (in a statement with a synchronisation operation)"
+			}
 			sid := newSite("access", fc, label, x.Pos(), funcName, inv.Vars[id].Name+" "+note)
 			at := host.Pos()
 			if ls, ok := host.(*ast.LabeledStmt); ok {
 				at = ls.Pos()
 			}
-			fc.insert(at, fmt.Sprintf("__simrt.Access(%d, %d, %d); ", sid, id, kind), 1)
+			fc.insert(at, fmt.Sprintf("__simrt.Access(%d, %d, %d); ", sid, id, hk), 1)
 		}
 		return true
 	}
@@ -598,6 +606,64 @@ func rewriteGo(label string, fc *fileCtx, g *ast.GoStmt, fn string, isListed boo
 	}
 	fc.replace(g.Go, call.Fun.Pos(), fmt.Sprintf("{ %s := %s; __simrt.Go(%d, func() { ", strings.Join(names, ", "), strings.Join(vals, ", "), id))
 	fc.replace(call.Lparen, g.End(), fmt.Sprintf("(%s%s) }) }", strings.Join(names, ", "), ell))
+}
+
+// isSyncMarkCall reports whether a call is one of the synchronisation operations that are
+// marked rather than shimmed (sync/atomic functions and methods, sync.Pool, sync.Map).
+func isSyncMarkCall(info *types.Info, c *ast.CallExpr) bool {
+	sel, ok := c.Fun.(*ast.SelectorExpr)
+	if !ok {
+		return false
+	}
+	if id, ok := sel.X.(*ast.Ident); ok {
+		if pn, ok := info.Uses[id].(*types.PkgName); ok {
+			return pn.Imported().Path() == "sync/atomic"
+		}
+	}
+	s := info.Selections[sel]
+	if s == nil || s.Kind() != types.MethodVal {
+		return false
+	}
+	m, ok := s.Obj().(*types.Func)
+	if !ok || m.Pkg() == nil {
+		return false
+	}
+	if m.Pkg().Path() == "sync/atomic" {
+		return true
+	}
+	if m.Pkg().Path() == "sync" {
+		rs := strings.TrimPrefix(m.Type().(*types.Signature).Recv().Type().String(), "*")
+		return rs == "sync.Pool" || rs == "sync.Map"
+	}
+	return false
+}
+
+// hostHasSyncMark: the statement contains such a call (outside nested function literals).
+func hostHasSyncMark(info *types.Info, host ast.Stmt, cache map[ast.Stmt]bool) bool {
+	if v, ok := cache[host]; ok {
+		return v
+	}
+	found := false
+	ast.Inspect(host, func(n ast.Node) bool {
+		if found {
+			return false
+		}
+		switch x := n.(type) {
+		case *ast.FuncLit:
+			return false
+		case *ast.BlockStmt:
+			if n != ast.Node(host) {
+				return false // nested statement lists have hosts of their own
+			}
+		case *ast.CallExpr:
+			if isSyncMarkCall(info, x) {
+				found = true
+			}
+		}
+		return true
+	})
+	cache[host] = found
+	return found
 }
 
 // handleCall rewrites calls of sync primitives to the shims and marks other
